@@ -485,9 +485,14 @@ pub fn plan(property: &str, tier: Tier) -> Option<Plan> {
                 // the driver node keeps adding / removing dependencies while the expert node is unobserved
                 jobs.push(w("driver", "rel", 8));
                 jobs.push(w("driver", "dbg", 7));
+                // the expert node is needed only through a regular bind that switches away from it in mid-stabilise
+                jobs.push(w("via", "rel", 7));
+                jobs.push(w("via", "dbg", 7));
             } else {
                 jobs.push(w("driver", "rel", 10));
                 jobs.push(w("driver", "dbg", 9));
+                jobs.push(w("via", "rel", 9));
+                jobs.push(w("via", "dbg", 8));
                 jobs.push(w("sum", "rel", 10));
                 jobs.push(w("join", "rel", 11));
                 jobs.push(w("bind", "rel", 11));
